@@ -109,7 +109,7 @@ def layout(mod, ty):
 ATTR_WORDS = set('''dso_local local_unnamed_addr unnamed_addr internal private linkonce_odr weak_odr external hidden
  noundef nonnull nocapture readonly writeonly readnone zeroext signext noalias inbounds nuw nsw exact returned immarg
  volatile tail musttail notail fast nnan ninf nsz arcp contract afn reassoc comdat constant global weak common
- available_externally align dereferenceable dereferenceable_or_null sret byval nofree nosync willreturn mustprogress inreg nest swiftself nonnull noalias preallocated inalloca elementtype'''.split())
+ available_externally align dereferenceable dereferenceable_or_null sret byval nofree nosync willreturn mustprogress inreg nest swiftself nonnull noalias preallocated inalloca elementtype fastcc coldcc ccc noinline alwaysinline cold hot protected default'''.split())
 
 def parse_module(text, mod=None):
     mod = mod or Mod()
